@@ -69,7 +69,7 @@ pub fn generate(property: &str, seed: u64, tier: Tier) -> Plan {
         family: "crash".into(),
         property: property.into(),
         seed,
-        config: json!({"backend": backend, "max_points": match tier { Tier::Quick => 24, Tier::Thorough => 400 },
+        config: json!({"backend": backend, "max_points": match tier { Tier::Quick => 24, Tier::Thorough => 120 },
             "tear_all_bytes": tier == Tier::Thorough}),
         steps,
     }
